@@ -230,3 +230,72 @@ func RunMethods(d *fw.Driver, res *fw.Result) error {
 	}
 	return nil
 }
+
+// namedCtx is a context type of the application's own: it is a context.Context (it embeds one) without being that
+// exact interface type.
+type namedCtx interface {
+	context.Context
+	Tenant() string
+}
+
+type tenantCtx struct {
+	context.Context
+	tenant string
+}
+
+func (t tenantCtx) Tenant() string { return t.tenant }
+
+type implNamed struct{ ran int }
+
+func (i *implNamed) Ping(ctx namedCtx) error { i.ran++; return nil }
+
+type proxyNamed struct {
+	Ping func(namedCtx) error `perm:"read"`
+}
+
+// RunNamedCtx: the caller's set is what was attached to the context the method is called with — also when the method's
+// first parameter is declared with a context type of the application's own.
+func RunNamedCtx(res *fw.Result) error {
+	for _, defaults := range subsets() {
+		for _, attached := range subsets() {
+			im := &implNamed{}
+			var px proxyNamed
+			auth.PermissionedProxy(universe, defaults, im, &px)
+			ctx := tenantCtx{Context: auth.WithPerm(context.Background(), attached), tenant: "t"}
+			var err error
+			panicked := ""
+			func() {
+				defer func() {
+					if r := recover(); r != nil {
+						panicked = fmt.Sprint(r)
+					}
+				}()
+				err = px.Ping(ctx)
+			}()
+			holds := false
+			for _, p := range attached {
+				if p == "read" {
+					holds = true
+				}
+			}
+			mon := ""
+			switch {
+			case panicked != "":
+				mon = "the permissioned function panicked instead of deciding: " + panicked
+			case holds && im.ran != 1:
+				mon = fmt.Sprintf("the attached set %v holds the permission but the method did not run (defaults %v)", attached, defaults)
+			case !holds && im.ran != 0:
+				mon = fmt.Sprintf("the attached set %v lacks the permission but the method ran (the defaults %v decided)", attached, defaults)
+			case !holds && err == nil:
+				mon = "permission missing but no error returned"
+			}
+			res.Count("perm.namedctx")
+			res.Eval(true, []interface{}{"namedctx", strs(defaults), strs(attached)})
+			if mon != "" {
+				res.Add(fw.Finding{Kind: "monitor", Signature: fmt.Sprintf("perm named-context attached=%v defaults=%v", attached, defaults), Detail: mon,
+					Case: map[string]interface{}{"scenario": "named-ctx", "attached": strs(attached), "defaults": strs(defaults)}})
+			}
+		}
+	}
+	return nil
+}
